@@ -91,6 +91,11 @@ func c17PurityOne(c *engine.Ctx, fn *pure.Fn, in *pure.Input) {
 // rendered, then g(in2) runs, and the retained values are rendered again. A result that aliases
 // hidden shared state (a pooled or cached buffer, a reused scratch slice) changes under the later
 // call although each call, compared immediately, returns the right value.
+// c17Solo holds the results every function returns when run alone, computed before any result
+// is overwritten (an overwritten result that aliases package-level storage corrupts it for the
+// rest of the process, so a solo value taken later would already be wrong).
+var c17Solo = map[string]string{}
+
 func c17Retained(c *engine.Ctx, fn, gn *pure.Fn, inName, in2Name string) {
 	c.Count("evaluations", 1)
 	in, in2 := pure.BuildByName(inName), pure.BuildByName(in2Name)
@@ -112,7 +117,10 @@ func c17Retained(c *engine.Ctx, fn, gn *pure.Fn, inName, in2Name string) {
 	if fn.Name != "T.Coords+accessors" { // accessor results are documented views of the argument
 		var solo, got string
 		if p, _ := engine.Guard(func() {
-			solo = gn.Call(pure.BuildByName(in2Name))
+			var have bool
+			if solo, have = c17Solo[gn.Name+"|"+in2Name]; !have {
+				solo = gn.Call(pure.BuildByName(in2Name))
+			}
 			in3 := pure.BuildByName(inName)
 			fn.Call(in3)
 			in3.ScribbleKept()
@@ -223,6 +231,14 @@ func c17Run(c *engine.Ctx) {
 		}
 		if g2 := pure.Globals(); g2 != glob {
 			c.Violate("purity/"+fns[f].Name+"/global-state-changed", "package-level state changed during the tuple family: "+diffAt(glob, g2), "tuple", c17Case{Part: "tuple", Fns: []string{fns[f].Name}, Inputs: []string{"tuple0"}})
+		}
+	}
+	// solo results of every function on every input, taken before anything is overwritten
+	for g := range fns {
+		for j := 0; j < nIn; j++ {
+			if in := pure.BuildInput(j); fns[g].Applies(in) {
+				engine.Guard(func() { c17Solo[fns[g].Name+"|"+pure.InputName(j)] = fns[g].Call(in) })
+			}
 		}
 	}
 	// (A2) two-call histories with the first result retained: every ordered pair (f, g) on the
